@@ -59,7 +59,7 @@ From Indi Require Import Msg.Codec.
 Definition enc_optmsg (o : option msg) : sx := of_opt enc_msg o.
 
 (* ("msg" m impl_doc foreign_docs model_doc) ->
-     (wfb, expected = norm m, parse impl_doc, [parse foreign], parse model_doc, reserialised doc equal?)
+     (wfb, expected = norm m, parse impl_doc, [parse foreign], parse model_doc, reserialised doc equal?, printable?)
    ("xml" doc) -> as run_xml *)
 Definition run_codec (x : sx) : sx :=
   match x with
@@ -73,7 +73,8 @@ Definition run_codec (x : sx) : sx :=
                 enc_optmsg (from_string live_registry impl_doc);
                 SL (map (fun d => match d with SA d => enc_optmsg (from_string live_registry d) | _ => bad_input end) foreign);
                 enc_optmsg (from_string live_registry doc);
-                of_bool (str_eqb (to_string (norm_msg m)) doc)]
+                of_bool (str_eqb (to_string (norm_msg m)) doc);
+                of_bool (printable m)]
         | None => bad_input
         end
       else bad_input
